@@ -4,6 +4,7 @@ import Astral.Model.Sun
 import Astral.Model.Moon
 import Astral.Model.Geocoder
 import Astral.Model.Location
+import Astral.Model.Norm
 import Std.Data.HashMap
 open Astral Astral.Proto
 
@@ -402,6 +403,59 @@ def handleLoc (fn : String) (a : Array String) : Option String := do
       pure (s!"{tokCall o.call} {tokB o.utcSuffix} {tokS o.timezoneLabel} {tokS o.locationLabel}")
   | _ => none
 
+def getTzArg (zs : Zones) (t : String) : Option TzArg :=
+  if t.startsWith "Zobj:" then ((t.drop 5).toString.toInt?).bind (fun i => (zs.get? i).map TzArg.obj)
+  else if t.startsWith "Zname:" then ((t.drop 6).toString.toInt?).map (fun i => TzArg.name i.toNat)
+  else none
+
+def getDateSpec (zs : Zones) (t : String) : Option DateSpec :=
+  if t == "N" then some .omitted
+  else if t.startsWith "I" then (getI t).map DateSpec.date
+  else if t.startsWith "W" then ((t.drop 1).toString.toInt?).map DateSpec.naive
+  else if t.startsWith "A" then
+    match (t.drop 1).toString.splitOn ":" with
+    | [w, z] => do
+      let w ← w.toInt?; let z ← z.toInt?; let tz ← zs.get? z
+      pure (.aware w tz)
+    | _ => none
+  else none
+
+def getDepSpec (t : String) : Option (DepSpec F) :=
+  if t == "civil" then some .civil else if t == "nautical" then some .nautical
+  else if t == "astronomical" then some .astronomical else (getF t).map DepSpec.num
+
+def getOptI (t : String) : Option (Option Int) :=
+  if t == "N" then some none else (getI t).map some
+
+def resolveIn (zs : Zones) (n : Nat) : TZ := (zs.get? (n : Int)).getD TZ.UTC
+
+def handleNorm (zs : Zones) (fn : String) (a : Array String) : Option String := do
+  match fn with
+  | "pub_event" =>
+      -- pub_event <dawn|dusk|sunrise|sunset> <obs×5> <datespec> <depspec> <tzarg> <now>
+      let f ← (match a[0]! with
+        | "dawn" => some SunFn.dawn | "dusk" => some SunFn.dusk
+        | "sunrise" => some SunFn.sunrise | "sunset" => some SunFn.sunset | _ => none)
+      let o ← getObs a 1; let ds ← getDateSpec zs a[6]!; let dep ← getDepSpec a[7]!
+      let tz ← getTzArg zs a[8]!; let now ← getI a[9]!
+      pure (exc (fun (r : Int × TZ) => s!"{tokI r.1} {tokI (r.2.utc r.1)}")
+        (sunEventPublic (resolveIn zs) now f o ds dep tz))
+  | "pub_tae" =>
+      let o ← getObs a 0; let e ← getF a[5]!; let d ← getOptI a[6]!; let dir ← getDir a[7]!
+      let tz ← getTzArg zs a[8]!; let r ← getB a[9]!; let now ← getI a[10]!
+      pure (exc tokI (timeAtElevationPublic (resolveIn zs) now o e d dir tz r))
+  | "pub_noon" =>
+      let o ← getObs a 0; let d ← getOptI a[5]!; let tz ← getTzArg zs a[6]!; let now ← getI a[7]!
+      pure (exc tokI (noonPublic (resolveIn zs) now o d tz))
+  | "pub_midnight" =>
+      let o ← getObs a 0; let d ← getOptI a[5]!; let tz ← getTzArg zs a[6]!; let now ← getI a[7]!
+      pure (exc tokI (midnightPublic (resolveIn zs) now o d tz))
+  | "pub_moon" =>
+      let rise ← getB a[0]!; let lat ← getF a[1]!; let lon ← getF a[2]!
+      let ds ← getDateSpec zs a[3]!; let tz ← getTzArg zs a[4]!; let now ← getI a[5]!
+      pure (exc optI (moonPublic (resolveIn zs) now rise lat lon ds tz))
+  | _ => none
+
 def handle (fn : String) (a : Array String) : Option String := do
   match fn with
   | "julianday_date" =>
@@ -452,7 +506,7 @@ def processLine (st : St) (line : String) : St × String :=
       | some (id, tz) => ({ st with zones := st.zones.insert id tz }, "ok")
       | none => (st, tokE .badRequest)
     else
-      match (handle fn a <|> handleSun st.zones fn a <|> handleMoon st.zones fn a <|> handleLoc fn a) with
+      match (handle fn a <|> handleSun st.zones fn a <|> handleMoon st.zones fn a <|> handleLoc fn a <|> handleNorm st.zones fn a) with
       | some r => (st, r)
       | none =>
         match handleGeo st fn a with
